@@ -414,7 +414,7 @@ theorem lookup_zip_getElem {β : Type} (ks : List (List Nat)) (vs : List β) (hn
     | nil => simp at h2
     | cons v vs =>
       cases k with
-      | zero => simp [List.lookup_cons]
+      | zero => simp
       | succ k =>
         have hne : ks[k]'(by simpa using h1) ≠ a := by
           intro h
@@ -430,6 +430,7 @@ theorem filledMask_at {n m : Nat} {pareto : List (List Nat)} (k : Nat)
     (h1 : k < (combinations n m).length) (h2 : k < pareto.length) (i : Nat) :
     filledMask n m pareto ((combinations n m)[k]) i = pareto[k].contains i := by
   unfold filledMask
-  rw [lookup_zip_getElem _ _ (nodup_combsFrom n m 0) k h1 h2]
+  have hnd : (combinations n m).Nodup := nodup_combsFrom n m 0
+  rw [lookup_zip_getElem _ _ hnd k h1 h2]
 
 end VOPy.Thompson
